@@ -23,8 +23,9 @@ package redact
 //   D. every string obtained at any position (RedactableString, String, Take*) still has its original
 //      content after the whole history.
 //
-// Not checked, by design of the library and outside the statement ("a string obtained earlier"): the
-// byte slice returned by RedactableBytes() (not Take) aliases the buffer like bytes.Buffer.Bytes().
+//   E. shared storage (common_test.go, vSharedStorage): the accessors, also on a by-value copy, and printing the
+//      object as an operand store nothing into the spare capacity of the backing array; a use of an earlier copy
+//      does not change what the original returns later; a RedactableBytes() result is not changed by later writes.
 
 import (
 	"encoding/json"
